@@ -1,6 +1,7 @@
 package main
 
 import (
+	"regexp"
 	"bytes"
 	"context"
 	"fmt"
@@ -34,6 +35,10 @@ var solvers = []solverSpec{
 		return []string{"cvc5", "--lang=smt2", fmt.Sprintf("--tlimit=%d", t*1000), f}
 	}},
 	{"z3-4.8.12", func(f string, t int) []string { return []string{"z3", "-smt2", fmt.Sprintf("-T:%d", t), f} }},
+	// enumerative instantiation decides many goals with bounded quantifiers that the default strategy gives up on
+	{"cvc5-1.0-enum", func(f string, t int) []string {
+		return []string{"cvc5", "--lang=smt2", "--enum-inst", fmt.Sprintf("--tlimit=%d", t*1000), f}
+	}},
 }
 
 func ctxBackground() context.Context { return context.Background() }
@@ -144,12 +149,143 @@ func queryText(sc *Script, o *Obligation, models bool) string {
 		b.WriteString("(set-option :produce-models true)\n")
 	}
 	b.WriteString("(set-logic ALL)\n")
-	b.WriteString(sc.text(o.Upto))
+	b.WriteString(pruneQuantified(sc.textUsing(o.Upto, o.Using), o.Goal))
 	if o.Cover {
 		b.WriteString("(assert " + o.Goal + ")\n")
 	} else {
 		b.WriteString("(assert (not " + o.Goal + "))\n")
 	}
 	b.WriteString("(check-sat)\n")
+	return b.String()
+}
+
+
+var identRe = regexp.MustCompile(`[A-Za-z_][A-Za-z0-9_.!#$\[\]\-]*`)
+
+// pruneQuantified drops asserted quantified facts that cannot matter for the goal: a top-level
+// (assert (forall ...)) is kept only if one of the symbols it is specifically about (declared
+// constants and functions other than the initial heap, the inputs and the string theory) occurs in
+// the cone of definitions of the goal or of a kept assertion. Dropping hypotheses is sound.
+func pruneQuantified(text, goal string) string {
+	lines := strings.Split(text, "\n")
+	defs := map[string][]string{} // defined name -> identifiers of its body
+	declared := map[string]bool{}
+	type qa struct {
+		idx  int
+		syms []string
+	}
+	var quants []qa
+	var plain []int
+	for i, l := range lines {
+		switch {
+		case strings.HasPrefix(l, "(define-fun "):
+			rest := l[len("(define-fun "):]
+			sp := strings.IndexByte(rest, ' ')
+			if sp < 0 {
+				continue
+			}
+			defs[rest[:sp]] = identRe.FindAllString(rest[sp:], -1)
+		case strings.HasPrefix(l, "(declare-const "), strings.HasPrefix(l, "(declare-fun "):
+			f := strings.Fields(l)
+			if len(f) > 1 {
+				declared[f[1]] = true
+			}
+		case strings.HasPrefix(l, "(assert (forall "):
+			quants = append(quants, qa{i, identRe.FindAllString(l, -1)})
+		case strings.HasPrefix(l, "(assert "):
+			plain = append(plain, i)
+		}
+	}
+	if len(quants) < 8 {
+		return text
+	}
+	generic := func(s string) bool {
+		return strings.HasPrefix(s, "H0_") || strings.HasPrefix(s, "gs_") || strings.HasPrefix(s, "str_") || strings.HasPrefix(s, "in_") || strings.HasPrefix(s, "glob_") || strings.HasPrefix(s, "lit_") || s == "f64_zero"
+	}
+	cone := map[string]bool{}
+	var add func(ids []string)
+	add = func(ids []string) {
+		for _, id := range ids {
+			if cone[id] {
+				continue
+			}
+			if body, ok := defs[id]; ok {
+				cone[id] = true
+				add(body)
+			} else if declared[id] {
+				cone[id] = true
+			}
+		}
+	}
+	add(identRe.FindAllString(goal, -1))
+	// ground assertions that talk about the goal's symbols bring their symbols along (one round)
+	for _, i := range plain {
+		ids := identRe.FindAllString(lines[i], -1)
+		hit := false
+		for _, id := range ids {
+			if cone[id] && !generic(id) {
+				hit = true
+				break
+			}
+		}
+		if hit {
+			add(ids)
+		}
+	}
+	specific := func(ids []string) map[string]bool {
+		seen := map[string]bool{}
+		res := map[string]bool{}
+		var walk func(ids []string)
+		walk = func(ids []string) {
+			for _, id := range ids {
+				if seen[id] {
+					continue
+				}
+				seen[id] = true
+				if body, ok := defs[id]; ok {
+					walk(body)
+				} else if declared[id] && !generic(id) {
+					res[id] = true
+				}
+			}
+		}
+		walk(ids)
+		return res
+	}
+	keep := map[int]bool{}
+	spec := make([]map[string]bool, len(quants))
+	for k, q := range quants {
+		spec[k] = specific(q.syms)
+	}
+	for changed := true; changed; {
+		changed = false
+		for k, q := range quants {
+			if keep[q.idx] {
+				continue
+			}
+			rel := len(spec[k]) == 0
+			for sname := range spec[k] {
+				if cone[sname] {
+					rel = true
+					break
+				}
+			}
+			if rel {
+				keep[q.idx] = true
+				add(q.syms)
+				changed = true
+			}
+		}
+	}
+	var b strings.Builder
+	for i, l := range lines {
+		if strings.HasPrefix(l, "(assert (forall ") && !keep[i] {
+			continue
+		}
+		b.WriteString(l)
+		if i < len(lines)-1 {
+			b.WriteString("\n")
+		}
+	}
 	return b.String()
 }
